@@ -143,7 +143,7 @@ def run(ctx):
                        % (depth, nrand, len(hs2)))
     ctx.cov['exhaustive'] = True
     ctx.assumptions += ['CPython heapq extracts the least entry (heap layout abstracted)',
-                        'task keys are hashable identities (strings in the drivers)',
+                        'task keys: strings in even-numbered histories, equal-but-not-identical objects (fresh instance per call) in odd ones',
                         'consumers: the NRT ClockScheduler and the OSC score are observed here through tie programs; RT clock queues in C08, Ppar in C14']
 
 
@@ -175,7 +175,7 @@ def consumers(ctx, thorough):
 def run_histories(ctx, hs, base=0):
     n = len(hs)
     per = max(1, (n + 15) // 16)
-    inputs = [dict(ids=list(range(i, min(n, i + per))), histories=hs[i:i + per]) for i in range(0, n, per)]
+    inputs = [dict(ids=list(range(i, min(n, i + per))), histories=hs[i:i + per], eqkeys=True) for i in range(0, n, per)]
     outs = ctx.run_drivers(DRIVER, inputs)
     traces = [t for o in outs for t in o['traces']]
     if len(traces) != n:
